@@ -19,6 +19,7 @@ C02-c no lossy narrowing into on-disk LBA/size fields: a conversion to a narrowe
 C02-d GetStart/GetSize multiply in 64 bits (shared with C13-a).
 C02-e sector-unit discipline: in partition/gpt and partition/mbr a value counted in sectors (an LBA field of the table or Start/End of a partition) is converted to or from bytes only with the table's own sector size, never with a literal 512/4096 (the property quantifies over both logical sector sizes).
 C02-f one disk identity: if the header encoder can draw a random GUID without keeping it, every function that encodes the header twice (primary and backup) fixes Table.GUID first.
+C02-h the protective MBR's boot signature is written and compared at the constant offset 510 of LBA 0, whatever the logical sector size.
 C02-g names: GPT names are UTF-16LE (36 code units in 72 bytes; the encoder's limit test counts the code units it writes, not runes): the encoder produces its code units with the utf16 package and never converts a rune straight to uint16, and the decoder rebuilds runes with utf16.Decode/DecodeRune and never widens a single code unit to a rune.
 Not covered: Start/End/Size reconciliation arithmetic, UTF-16 name handling beyond 'same bytes', the mixed-endian GUID permutation, geometry formulas.`)
 }
@@ -42,6 +43,8 @@ func runC02(w *World, r *Report) {
 	c02Names(w, r)
 	r.Floor("C02-f", r.countRule("C02-f"), 1)
 	c02NameLimit(w, r)
+	c02ProtectiveSignature(w, r)
+	r.Floor("C02-h", r.countRule("C02-h"), 2)
 	r.Floor("C02-g", r.countRule("C02-g"), 3)
 	r.Floor("C02-a", r.countRule("C02-a"), 3)
 	r.Floor("C02-e", r.countRule("C02-e"), 10)
@@ -486,5 +489,60 @@ func c02NameLimit(w *World, r *Report) {
 	}
 	if n == 0 {
 		r.Fail("C02-g", fnName(enc), "name limit counts UTF-16 code units", w.relFile(enc.Pos()), "the entry encoder does not limit the length of the partition name at all: more than 36 code units overrun the 128-byte entry")
+	}
+}
+
+// c02ProtectiveSignature (C02-h): the boot signature of the protective MBR closes the 512-byte MBR at bytes 510..511 of
+// LBA 0 for every logical sector size (UEFI 5.2.3): wherever the gpt package writes or compares the signature bytes,
+// the window starts at the constant 510 - not at the end of a sector-sized buffer.
+func c02ProtectiveSignature(w *World, r *Report) {
+	n := 0
+	for _, fn := range w.ModFns {
+		if w.pkgOf(fn) != pGPT {
+			continue
+		}
+		allInstrs(fn, func(ins ssa.Instruction) {
+			c, ok := ins.(*ssa.Call)
+			if !ok {
+				return
+			}
+			isSig := func(v ssa.Value) bool {
+				for _, rt := range w.prov(v, provOpts{}).Roots {
+					if rt.Kind == RCall && rt.Fn != nil && rt.Fn.Name() == "getMbrSignature" {
+						return true
+					}
+				}
+				return false
+			}
+			args := c.Call.Args
+			if len(args) != 2 {
+				return
+			}
+			var other ssa.Value
+			switch {
+			case isSig(args[0]) && !isSig(args[1]):
+				other = args[1]
+			case isSig(args[1]) && !isSig(args[0]):
+				other = args[0]
+			default:
+				return
+			}
+			bi, isB := c.Call.Value.(*ssa.Builtin)
+			if !(isStdCall(c, "bytes.Equal") || (isB && bi.Name() == "copy")) {
+				return
+			}
+			n++
+			okPos := false
+			if sl, ok := stripConv(other).(*ssa.Slice); ok && sl.Low != nil {
+				if k, isC := constInt(sl.Low); isC && k == 510 {
+					okPos = true
+				}
+			}
+			r.Check(okPos, "C02-h", fnName(fn), "MBR signature at bytes 510..511 #"+ordinal(fn, c), w.relFile(c.Pos()), "",
+				"the protective MBR's boot signature is written or compared at a position other than the constant 510 (for instance the last two bytes of a sector-sized buffer): with 4096-byte logical sectors writer and reader (and every independent parser, which looks at 510) disagree, and a table written with a protective MBR reads back without it")
+		})
+	}
+	if n < 2 {
+		r.Undecided("C02-h", "partition/gpt", "MBR signature position", "partition/gpt", "fewer than two uses (one writing, one comparing) of the MBR signature bytes found in package gpt")
 	}
 }
